@@ -1026,6 +1026,194 @@ def extract_director_decision():
 HOOKS.append(extract_director_decision)
 
 
+def extract_input_table():
+    """TRANSLATOR: InputState::try_from (glonax-input/src/input.rs) as a table, one row per match arm:
+    axis   [0, scancode, gate, expr, d1, d2, out, actuator]
+           scancode 0 Slew 1 Arm 2 Attachment 3 Boom 4 LeftTrack 5 RightTrack; gate 1 = `if self.motion_lock { return None; }`;
+           expr 1: if limit {(v/2).ramp(d1)} else {v.ramp(d1)} | 2: if v<0 {expr1(d1)} else {v.ramp(d2)} | 3: if v<0 {v.ramp(d1)} else {expr1(d2)}
+                | 4: v.ramp(d1); out 0: Motion::new(actuator, value) | 1: if drive_lock {StraightDrive(value)} else {Motion::new(actuator, value)}
+    set    [1, scancode, pressed, field, value, out]   one assignment `self.field = value` (0 drive_lock 1 motion_lock 2 limit_motion),
+           out 0 None 1 Some(StopAll) 2 Some(ResumeAll) 3 Some(StraightDrive(POWER_NEUTRAL)); scancode 8 Abort 9 DriveLock 10 LimitMotion
+    up     [2, 6, 1, gate, step, lo, hi]   gate 2 = `if !self.motion_lock { return None; }`, rpm = (rpm + step).clamp(lo, hi), Some(from_rpm)
+    down   [3, 7, 1, floor, step, lo, hi]  if rpm <= floor { rpm = 0; return Some(shutdown) }; rpm = (rpm - step).clamp(lo, hi), Some(from_rpm)
+    Anything else is an EXTRACT-FAIL."""
+    rel = "glonax-input/src/input.rs"
+    act = {}
+    for it in items:
+        if it[0].startswith("actuator") and it[1] == "Nat":
+            act[it[0][len("actuator"):]] = int(it[2])
+    f = strip_comments(body_of(rel, r"fn\s+try_from\s*\(\s*&mut\s+self\s*,\s*input\s*:\s*Scancode\s*\)", "InputState::try_from"))
+    m = re.search(r"match\s+input\s*\{", f)
+    if not m:
+        raise ExtractError(f"{rel}: `match input` in try_from")
+    sc_ids = {"Slew": 0, "Arm": 1, "Attachment": 2, "Boom": 3, "LeftTrack": 4, "RightTrack": 5, "Up": 6, "Down": 7, "Abort": 8, "DriveLock": 9, "LimitMotion": 10, "Confirm": 11}
+    fields = {"drive_lock": 0, "motion_lock": 1, "limit_motion": 2}
+    N = r"([0-9_]+)"
+    e1 = lambda: r"ifself\.limit_motion\{\(value/2\)\.ramp\(" + N + r"\)\}else\{value\.ramp\(" + N + r"\)\}"
+    rows, catch_all = [], False
+    for pat, body in match_arms(brace_block(f, m.end() - 1)):
+        p1 = re.sub(r"\s+", "", pat)
+        b = re.sub(r"\s+", "", body)
+        if p1 == "_":
+            catch_all = b == "None"
+            continue
+        ma = re.fullmatch(r"Scancode::(\w+)\(value\)", p1)
+        mb = re.fullmatch(r"Scancode::(\w+)\(ButtonState::(Pressed|Released)\)", p1)
+        if ma and ma.group(1) in sc_ids:
+            sc = sc_ids[ma.group(1)]
+            g = re.match(r"\{ifself\.motion_lock\{returnNone;\}", b)
+            gate = 1 if g else 9
+            rest = b[g.end():] if g else b[1:]
+            ex = None
+            for kind, rx in [(1, r"letvalue=" + e1() + r";"),
+                             (2, r"letvalue=ifvalue\.is_negative\(\)\{" + e1() + r"\}else\{value\.ramp\(" + N + r"\)\};"),
+                             (3, r"letvalue=ifvalue\.is_negative\(\)\{value\.ramp\(" + N + r"\)\}else" + e1() + r";"),
+                             (4, r"letvalue=value\.ramp\(" + N + r"\);")]:
+                mm = re.match(rx, rest)
+                if mm:
+                    ds = [num(x) for x in mm.groups()]
+                    if kind == 1:
+                        if ds[0] != ds[1]:
+                            break
+                        ex = (1, ds[0], 0)
+                    elif kind == 2:
+                        if ds[0] != ds[1]:
+                            break
+                        ex = (2, ds[0], ds[2])
+                    elif kind == 3:
+                        if ds[1] != ds[2]:
+                            break
+                        ex = (3, ds[0], ds[1])
+                    else:
+                        ex = (4, ds[0], 0)
+                    rest = rest[mm.end():]
+                    break
+            if ex is None:
+                raise ExtractError(f"{rel}: try_from arm {pat.strip()}: value expression not recognised")
+            o0 = re.fullmatch(r"Some\(Object::Motion\(Motion::new\(Actuator::(\w+),value\)\)\)\}", rest)
+            o1 = re.fullmatch(r"ifself\.drive_lock\{Some\(Object::Motion\(Motion::StraightDrive\(value\)\)\)\}else\{Some\(Object::Motion\(Motion::new\(Actuator::(\w+),value\)\)\)\}\}", rest)
+            o = o0 or o1
+            if not o or o.group(1) not in act:
+                raise ExtractError(f"{rel}: try_from arm {pat.strip()}: output not recognised")
+            rows.append([0, sc, gate, ex[0], ex[1], ex[2], 0 if o0 else 1, act[o.group(1)]])
+        elif mb and mb.group(1) in sc_ids:
+            sc, pressed = sc_ids[mb.group(1)], 1 if mb.group(2) == "Pressed" else 0
+            ms = re.fullmatch(r"\{self\.(\w+)=(true|false);(None|Some\(Object::Motion\(Motion::StopAll\)\)|Some\(Object::Motion\(Motion::ResumeAll\)\)|Some\(Object::Motion\(Motion::StraightDrive\(Motion::POWER_NEUTRAL\)\)\))\}", b)
+            mu = re.fullmatch(r"\{if!self\.motion_lock\{returnNone;\}self\.engine_rpm=\(self\.engine_rpm\+" + N + r"\)\.clamp\(" + N + "," + N + r"\);Some\(Object::Engine\(Engine::from_rpm\(self\.engine_rpm\)\)\)\}", b)
+            md = re.fullmatch(r"\{ifself\.engine_rpm<=" + N + r"\{self\.engine_rpm=0;returnSome\(Object::Engine\(Engine::shutdown\(\)\)\);\}self\.engine_rpm=\(self\.engine_rpm-" + N + r"\)\.clamp\(" + N + "," + N + r"\);Some\(Object::Engine\(Engine::from_rpm\(self\.engine_rpm\)\)\)\}", b)
+            if ms and ms.group(1) in fields:
+                out = {"None": 0}.get(ms.group(3), 1 if "StopAll" in ms.group(3) else 2 if "ResumeAll" in ms.group(3) else 3)
+                rows.append([1, sc, pressed, fields[ms.group(1)], 1 if ms.group(2) == "true" else 0, out])
+            elif mu and sc == 6:
+                rows.append([2, sc, pressed, 2] + [num(x) for x in mu.groups()])
+            elif md and sc == 7:
+                rows.append([3, sc, pressed] + [num(x) for x in md.groups()])
+            else:
+                raise ExtractError(f"{rel}: try_from arm {pat.strip()}: body not recognised")
+        else:
+            raise ExtractError(f"{rel}: try_from arm pattern {pat.strip()!r}")
+    if not catch_all:
+        raise ExtractError(f"{rel}: try_from has no `_ => None` arm")
+    pn = one("glonax-runtime/src/core/motion.rs", r"POWER_NEUTRAL\s*:\s*\w+\s*=\s*([0-9_]+)\s*;", "Motion::POWER_NEUTRAL")
+    add("inputPowerNeutral", num(pn.group(1)), "core/motion.rs Motion::POWER_NEUTRAL")
+    add("inputTable", "[" + ", ".join("[" + ", ".join(map(str, r)) + "]" for r in rows) + "]",
+        "TRANSLATED from glonax-input/src/input.rs InputState::try_from, one row per arm in source order (layout: see extract_input_table in tools/extract.py)", ty="List (List Nat)")
+
+
+HOOKS.append(extract_input_table)
+
+
+def extract_filter_shape():
+    """TRANSLATOR: FilterItem::matches as the ordered list of its checks
+    ([entry field, id accessor, 1 if compared as Some(field) against an Option]; 0 priority, 1 pgn / pgn_raw, 2 source_address,
+    3 destination_address), each of the shape `if let Some(x) = self.FIELD { if x != id.ACCESSOR() { return false; } }`,
+    followed by `true`; Filter::matches and Filter::push as recognised shapes."""
+    rel = "glonax-runtime/src/net.rs"
+    imp = strip_comments(body_of(rel, r"impl\s+FilterItem\s*\{", "impl FilterItem"))
+    m = re.search(r"fn\s+matches\s*\(\s*&self\s*,\s*id\s*:\s*&Id\s*\)\s*->\s*bool\s*\{", imp)
+    if not m:
+        raise ExtractError(f"{rel}: FilterItem::matches")
+    b = re.sub(r"\s+", "", brace_block(imp, m.end() - 1))
+    fields = {"priority": 0, "pgn": 1, "source_address": 2, "destination_address": 3}
+    acc = {"priority": 0, "pgn_raw": 1, "source_address": 2, "destination_address": 3}
+    rows, pos = [], 1
+    rx = re.compile(r"ifletSome\((\w+)\)=self\.(\w+)\{if(Some\(\1\)|\1)!=id\.(\w+)\(\)\{returnfalse;\}\}")
+    while True:
+        mm = rx.match(b, pos)
+        if not mm:
+            break
+        if mm.group(2) not in fields or mm.group(4) not in acc:
+            raise ExtractError(f"{rel}: FilterItem::matches check on {mm.group(2)} / {mm.group(4)}")
+        rows.append([fields[mm.group(2)], acc[mm.group(4)], 1 if mm.group(3).startswith("Some(") else 0])
+        pos = mm.end()
+    if b[pos:] != "true}":
+        raise ExtractError(f"{rel}: FilterItem::matches is not a sequence of field checks followed by `true`: {b[pos:pos+60]!r}")
+    add("filterItemChecks", "[" + ", ".join("[%d, %d, %d]" % tuple(r) for r in rows) + "]",
+        "TRANSLATED from net.rs FilterItem::matches: [entry field, id accessor, compared as Some(..)] per check in source order (0 priority, 1 pgn/pgn_raw, 2 source, 3 destination)", ty="List (List Nat)")
+    fimp = strip_comments(body_of(rel, r"impl\s+Filter\s*\{", "impl Filter"))
+    m = re.search(r"pub\s+fn\s+matches\s*\(\s*&self\s*,\s*id\s*:\s*&Id\s*\)\s*->\s*bool\s*\{", fimp)
+    if not m:
+        raise ExtractError(f"{rel}: Filter::matches")
+    fb = re.sub(r"\s+", "", brace_block(fimp, m.end() - 1))
+    shape = fb == "{letmatch_items=self.items.iter().any(|item|item.matches(id));(self.accept&&(self.items.is_empty()||match_items))||(!self.accept&&(self.items.is_empty()||!match_items))}"
+    add("filterMatchesShape", "true" if shape else "false", "net.rs Filter::matches is `any item matches`, then (accept && (empty || any)) || (!accept && (empty || !any))", ty="Bool")
+    m = re.search(r"pub\s+fn\s+push\s*\(\s*&mut\s+self\s*,\s*item\s*:\s*FilterItem\s*\)\s*\{", fimp)
+    if not m:
+        raise ExtractError(f"{rel}: Filter::push")
+    add("filterPushAppends", "true" if re.sub(r"\s+", "", brace_block(fimp, m.end() - 1)) == "{self.items.push(item);}" else "false",
+        "net.rs Filter::push is `self.items.push(item);`", ty="Bool")
+
+
+HOOKS.append(extract_filter_shape)
+
+
+def extract_frame_header_checks():
+    """TRANSLATOR: Frame::try_from(&[u8]) as the ordered list of its checks, [condition, error] per check:
+    condition 1 `buffer.len() != PROTO_BUFFER_SIZE`, 2 `buffer[0..3] != PROTO_HEADER[..]`, 3 `version != PROTO_VERSION` (version =
+    buffer[3]), 4 `payload_length == 0`, 5 `payload_length > MAX_PAYLOAD_SIZE` (payload_length = big-endian buffer[5], buffer[6]),
+    6 `buffer[7..10] != [0u8; 3]`; error 0 FrameTooSmall 1 InvalidHeader 2 VersionMismatch 3 PayloadEmpty 4 ExcessivePayloadLength
+    5 InvalidPadding; then `Ok(Self::new(buffer[4], payload_length))`."""
+    rel = "glonax-runtime/src/protocol/frame.rs"
+    imp = strip_comments(body_of(rel, r"impl\s+TryFrom<&\[u8\]>\s+for\s+Frame\b", "impl TryFrom<&[u8]> for Frame"))
+    m = re.search(r"fn\s+try_from\s*\(\s*buffer\s*:\s*&\[u8\]\s*\)[^{]*\{", imp)
+    if not m:
+        raise ExtractError(f"{rel}: Frame::try_from")
+    b = re.sub(r"\s+", "", brace_block(imp, m.end() - 1))[1:-1]
+    conds = {"buffer.len()!=PROTO_BUFFER_SIZE": 1, "buffer[0..3]!=PROTO_HEADER[..]": 2, "version!=PROTO_VERSION": 3,
+             "payload_length==0": 4, "payload_length>MAX_PAYLOAD_SIZE": 5, "buffer[7..10]!=[0u8;3]": 6}
+    errs = {"FrameTooSmall": 0, "InvalidHeader": 1, "VersionMismatch": 2, "PayloadEmpty": 3, "ExcessivePayloadLength": 4, "InvalidPadding": 5}
+    lets = {"letversion=buffer[3];": "version", "letpayload_length=u16::from_be_bytes([buffer[5],buffer[6]])asusize;": "payload_length"}
+    rows, pos, bound = [], 0, set()
+    while pos < len(b):
+        hit = False
+        for k, v in lets.items():
+            if b.startswith(k, pos):
+                bound.add(v)
+                pos += len(k)
+                hit = True
+        if hit:
+            continue
+        mm = re.match(r"if([^{]+)\{Err\(FrameError::(\w+)(?:\([^)]*\))?\)\?;?\}", b[pos:])
+        if mm:
+            c, e = mm.group(1), mm.group(2)
+            if c not in conds or e not in errs:
+                raise ExtractError(f"{rel}: Frame::try_from check `{c}` -> {e} is not one the translator knows")
+            for var in ("version", "payload_length"):
+                if var in c and var not in bound:
+                    raise ExtractError(f"{rel}: Frame::try_from uses {var} before its definition")
+            rows.append([conds[c], errs[e]])
+            pos += mm.end()
+            continue
+        break
+    if b[pos:] != "Ok(Self::new(buffer[4],payload_length))" or "payload_length" not in bound:
+        raise ExtractError(f"{rel}: Frame::try_from does not end with Ok(Self::new(buffer[4], payload_length)): {b[pos:pos+70]!r}")
+    add("frameHeaderChecks", "[" + ", ".join("[%d, %d]" % tuple(r) for r in rows) + "]",
+        "TRANSLATED from protocol/frame.rs Frame::try_from: [condition, error] per check in source order (see extract_frame_header_checks)", ty="List (List Nat)")
+
+
+HOOKS.append(extract_frame_header_checks)
+
+
 def f32(x):
     import struct
     return struct.unpack("<f", struct.pack("<f", x))[0]
